@@ -238,7 +238,14 @@ def _cleanup_network(tm_env, container_dir, app, network_client):
         # Resolve all the hosts
         # FIXME: There is no guarantie the hosts will resolve to
         #        the same IPs as they did during creation.
-        ips = {socket.gethostbyname(host) for host in app.passthrough}
+        ips = set()
+        for host in app.passthrough:
+            try:
+                ips.add(socket.gethostbyname(host))
+            except socket.gaierror:
+                # No rule can be found for this host, cleanup the rest.
+                _LOGGER.warning('Unable to resolve passthrough host: %r',
+                                host)
         for ip in ips:
             tm_env.rules.unlink_rule(
                 chain=iptables.PREROUTING_PASSTHROUGH,
